@@ -75,14 +75,7 @@ impl Oracle for C17 {
                     w.probe("decrypt_attempt_at_later_epoch");
                 }
                 if !ok {
-                    // KF-C17-1: the same content (same hash) was announced in another epoch too:
-                    // the epoch hint is looked up by content hash and yields only one epoch
-                    let same_content_other_epoch = w.blobs.get(msg).map(|b| {
-                        w.ledger.iter().any(|o| o.g == l.g && o.origin != l.origin && o.epoch != l.epoch && w.blobs.get(&o.origin).map(|ob| ob.1 == b.1).unwrap_or(false))
-                    }).unwrap_or(false);
-                    if same_content_other_epoch {
-                        kf = Some("KF-C17-1".to_string());
-                    }
+                    // (KF-C17-1, epoch hint by content hash, was repaired upstream: lookup by nonce)
                     // KF-C17-2 (same root cause as KF-C02-2 / KF-C20-1): after it stored the
                     // announcing message the client accepted another invitation for the same
                     // group; its MLS state and the exporter secret of that epoch number were
